@@ -201,6 +201,11 @@ static void run_history(const op_t *ops, int nops, uint64_t tape, unsigned fail_
         case OP_SAVE: {
             long w0 = st_writes;
             status = ascon_random_save_seed(st, &sto);
+            if (report && since >= 16384) {
+                /* the saved seed is 32 bytes of generator output: once the limit is reached it may not be produced without a fresh draw */
+                vf_count("forced_reseeds_expected", 1);
+                if (gr_logical == c0) vf_violation("C15", "prng:reseed:not-drawn-after-limit", "\"produced\":%ld,\"operation\":\"save_seed\",\"history\":\"%s\"", since, hist_desc);
+            }
             if (report) {
                 int want = o->wmode == 0 ? 0 : -1;
                 if (status != want) vf_violation("C15", "prng:status:save_seed", "\"status\":%d,\"documented\":%d,\"write_mode\":%d,\"history\":\"%s\"", status, want, o->wmode, hist_desc);
